@@ -366,7 +366,7 @@ Proof.
   destruct (fold_left _ _ _). reflexivity.
 Qed.
 
-Lemma XInv_xtick rep w pt now : XInv (x_cat w) -> XInv (x_cat (fst (xtick rep w pt now))).
+Lemma XInv_xtick rep w pt now now2 : XInv (x_cat w) -> XInv (x_cat (fst (xtick rep w pt now now2))).
 Proof.
   intros I. unfold xtick. cbn.
   apply fold_inv; [intros a v Ha; apply XInv_prune_ig, XInv_del_ig; auto|].
